@@ -59,6 +59,8 @@ func c09Scenarios(thorough bool) []convScn {
 		// short + long in one read, then a short coalesced read that fits into what is left of the first read's buffer
 		{plain1, plain3, tmsg{ID: 0x0002, Phone: p, Serial: 7}, tmsg{ID: 0x0002, Phone: p, Serial: 8}},
 		{plain1, esc2, tmsg{ID: 0x0002, Phone: p, Serial: 9}, tmsg{ID: 0x0002, Phone: p, Serial: 10}, plain1},
+		// two reassembled uploads on one connection (the second no larger than the first)
+		{fr1, fr2, tmsg{ID: 0x0801, Phone: p, Serial: 20, Total: 2, Number: 1, Body: "000000bb0000010299887766554433221100998877665544332211009988776655443322"}, tmsg{ID: 0x0801, Phone: p, Serial: 21, Total: 2, Number: 2, Body: "b1b2b3"}},
 	}
 	for i, h := range hist {
 		for _, mode := range []string{"one-per-read", "pairs", "close", "split"} {
@@ -82,7 +84,7 @@ func init() {
 		ID:         "C09",
 		Level:      "model_checking",
 		SingleProc: true,
-		Rule: "one connection, 13 histories of 2..5 frames from {escape-free, escaped, fragmented pair (reassembled), fragmented+ordinary interleaved}, delivered one frame per read, two per read, every frame split in the middle (each read = tail of one frame + head of the next), and one per read followed by the terminal closing; " +
+		Rule: "one connection, 14 histories of 2..5 frames from {escape-free, escaped, fragmented pair (reassembled), fragmented+ordinary interleaved}, delivered one frame per read, two per read, every frame split in the middle (each read = tail of one frame + head of the next), and one per read followed by the terminal closing; " +
 			"recording handlers snapshot every delivered Message inside OnReadExecutionEvent and keep the pointer; ALL schedules of reader/writer/terminal within the deviation bound (2 quick, 3 thorough) are executed; " +
 			"at every later callback and at quiescence each kept Message is compared with its snapshot, and every reply on the socket with the reference reply of the snapshotted request. Non-trivial = schedule with >=1 deviation",
 		Assumptions: []string{"scheduling points at channel/socket/once operations; unsynchronised accesses are C18's subject"},
